@@ -5,7 +5,7 @@
 #include "rt_common.h"
 #include "oneapi/tbb/parallel_for.h"
 #include "oneapi/tbb/task_group.h"
-#include "../../repo/src/tbb/concurrent_monitor.h"
+#include "tbb/concurrent_monitor.h"     // -I$(REPO)/src: the tree under test, not a fixed path
 
 namespace {
 
@@ -13,7 +13,7 @@ void scen_monitor(hx::Desc& d) {
     using namespace tbb::detail::r1;
     int nsleepers = (int)sim::draw_range(1, 3, "sleepers");
     int nnotifiers = (int)sim::draw_range(1, 2, "notifiers");
-    int mode = (int)sim::draw(3, "notify_mode");   // 0 notify_all, 1 notify(predicate on context), 2 notify_one per flag
+    int mode = (int)sim::draw(4, "notify_mode");   // 0 notify_all, 1 notify(predicate on context), 2 notify_all again, 3 notify_one_relaxed(predicate): the address-waiter pattern of tbb::mutex
     int rounds = (int)sim::draw_range(1, 3, "rounds");
     d.add(hx::fmt("concurrent_monitor sleepers=%d notifiers=%d mode=%d rounds=%d tso=%d", nsleepers, nnotifiers, mode, rounds, (int)sim::g_cfg.tso));
     d.publish();
@@ -36,10 +36,17 @@ void scen_monitor(hx::Desc& d) {
     });
     for (int n = 0; n < nnotifiers; ++n) fns.push_back([&, n] {
         for (int r = 1; r <= rounds; ++r) for (int s = n; s < nsleepers; s += nnotifiers) {
-            for (int i = 0, k = (int)sim::draw(4, "gap"); i < k; ++i) sim::upoint();
+            static const int gaps[] = {0, 1, 2, 3, 25, 90, 250};      // long gaps: the sleepers are parked in the wait set when the state changes
+            for (int i = 0, k = sim::draw_of(gaps, "gap"); i < k; ++i) sim::upoint();
             sh->flag[s].store(r, std::memory_order_relaxed);      // state change, then notify (the monitor supplies the fences)
             if (mode == 0) sh->mon.notify_all();
             else if (mode == 1) sh->mon.notify([s](std::uintptr_t c) { return c == (std::uintptr_t)(s + 1); });
+            else if (mode == 3) {
+                // several objects share one monitor, each sleeper waits for "its" object: exactly the matching sleeper must
+                // be woken wherever it sits in the wait set (the caller supplies the store-load ordering, as mutex::unlock does)
+                std::atomic_thread_fence(std::memory_order_seq_cst);
+                sh->mon.notify_one_relaxed([s](std::uintptr_t c) { return c == (std::uintptr_t)(s + 1); });
+            }
             else sh->mon.notify_all();   // notify_one is only correct with interchangeable sleepers; covered by mode 0/1
         }
     });
